@@ -20,6 +20,8 @@ struct Opts {
 	country: Option<String>,
 	org: Option<String>,
 	dir_exists: bool,
+	/// the last component of the output directory, as octets (a path need not be text)
+	dir_leaf: Vec<u8>,
 	/// an earlier run into the same directory (its key algorithm flag), before the run judged
 	prior: Option<&'static str>,
 }
@@ -89,11 +91,16 @@ fn run_case(s: &mut Suite, cli: &str, aws: bool, n: usize, o: &Opts) {
 	let base = format!("/verif/.cache/cli_tmp/{}_{}", std::process::id(), n);
 	let _ = std::fs::remove_dir_all(&base);
 	std::fs::create_dir_all(&base).unwrap();
-	let out_dir = if o.dir_exists { format!("{}/out", base) } else { format!("{}/new/nested/out", base) };
+	use std::os::unix::ffi::{OsStrExt, OsStringExt};
+	let out_dir: std::ffi::OsString = {
+		let mut b = (if o.dir_exists { format!("{}/", base) } else { format!("{}/new/nested/", base) }).into_bytes();
+		b.extend_from_slice(&o.dir_leaf);
+		std::ffi::OsString::from_vec(b)
+	};
 	if o.dir_exists {
 		std::fs::create_dir_all(&out_dir).unwrap();
 	}
-	let mut args: Vec<String> = vec!["-o".into(), out_dir.clone()];
+	let mut args: Vec<std::ffi::OsString> = vec!["-o".into(), out_dir.clone()];
 	if o.alg != "default" {
 		match alg_flag(o.alg) {
 			Some(f) => args.push(f.into()),
@@ -106,29 +113,29 @@ fn run_case(s: &mut Suite, cli: &str, aws: bool, n: usize, o: &Opts) {
 	if o.server {
 		args.push("--server-auth".into());
 	}
-	args.push(format!("--cert-file-name={}", o.cert));
-	args.push(format!("--ca-file-name={}", o.ca));
+	args.push(format!("--cert-file-name={}", o.cert).into());
+	args.push(format!("--ca-file-name={}", o.ca).into());
 	for x in &o.san {
-		args.push(format!("--san={}", x));
+		args.push(format!("--san={}", x).into());
 	}
 	if let Some(x) = &o.cn {
-		args.push(format!("--common-name={}", x));
+		args.push(format!("--common-name={}", x).into());
 	}
 	if let Some(x) = &o.country {
-		args.push(format!("--country-name={}", x));
+		args.push(format!("--country-name={}", x).into());
 	}
 	if let Some(x) = &o.org {
-		args.push(format!("--organization-name={}", x));
+		args.push(format!("--organization-name={}", x).into());
 	}
 	if let Some(prior_alg) = o.prior {
 		// an earlier, successful run into the same directory with another key algorithm: the run
 		// judged below has to leave exactly its own four files, whatever was there
-		let mut pa: Vec<String> = vec!["-o".into(), out_dir.clone()];
+		let mut pa: Vec<std::ffi::OsString> = vec!["-o".into(), out_dir.clone()];
 		if let Some(f) = alg_flag(prior_alg) {
 			pa.push(f.into());
 		}
-		pa.push(format!("--cert-file-name={}", o.cert));
-		pa.push(format!("--ca-file-name={}", o.ca));
+		pa.push(format!("--cert-file-name={}", o.cert).into());
+		pa.push(format!("--ca-file-name={}", o.ca).into());
 		pa.push("--san=a-much-longer-name-for-the-earlier-run.example.com".into());
 		let _ = Command::new(cli).args(&pa).env("RUST_BACKTRACE", "0").output();
 	}
@@ -224,7 +231,7 @@ fn run_case(s: &mut Suite, cli: &str, aws: bool, n: usize, o: &Opts) {
 		let _ = std::fs::remove_dir_all(&base);
 		return; // same base names: the property only speaks about distinct ones
 	}
-	let read = |n: &str| std::fs::read_to_string(format!("{}/{}", out_dir, n)).unwrap_or_default();
+	let read = |n: &str| std::fs::read_to_string(std::path::Path::new(&out_dir).join(n)).unwrap_or_default();
 	// each file is one PEM text and nothing else (strict RFC 7468 decoder of the Lean specification)
 	for f in &want {
 		let text = read(f);
@@ -326,7 +333,7 @@ pub fn run(ctx: &mut Ctx) -> Report {
 		return s.rep;
 	}
 	// --- the binary
-	let base = Opts { alg: "default", client: false, server: false, cert: "cert".into(), ca: "root-ca".into(), san: vec![], cn: None, country: None, org: None, dir_exists: true, prior: None };
+	let base = Opts { alg: "default", client: false, server: false, cert: "cert".into(), ca: "root-ca".into(), san: vec![], cn: None, country: None, org: None, dir_exists: true, dir_leaf: b"out".to_vec(), prior: None };
 	let mut cases: Vec<Opts> = vec![base.clone()];
 	for a in ["rsa", "ed25519", "p256", "p384", "p521"] {
 		// flags the build does not know are bpaf errors; still no files may be written
@@ -368,6 +375,12 @@ pub fn run(ctx: &mut Ctx) -> Report {
 		}
 	}
 	cases.push(Opts { cert: "leaf".into(), ca: "authority".into(), dir_exists: false, ..base.clone() });
+	// output directories whose name is not ASCII, and not text at all (a path is octets)
+	for leaf in [&b"caf\xc3\xa9"[..], &b"caf\xe9"[..], &b"\xff\xfe"[..], &b"with space"[..], &b"cl\xe9s.d"[..]] {
+		for exists in [true, false] {
+			cases.push(Opts { dir_leaf: leaf.to_vec(), dir_exists: exists, san: vec!["x.example".into()], ..base.clone() });
+		}
+	}
 	cases.push(Opts { cert: "same".into(), ca: "same".into(), ..base.clone() });
 	// base names that differ but share an output file, and look-alikes that do not
 	cases.push(Opts { cert: "x.key".into(), ca: "x".into(), ..base.clone() });
